@@ -96,4 +96,11 @@ class HH(Channel):
 
 
 def _vtrap(x, y):
-    return x / (save_exp(x / y) - 1.0)
+    # `x / (exp(x / y) - 1)` is 0/0 at x=0. As in NEURON's `vtrap`, use the Taylor
+    # expansion there. The inner `where` keeps the unused branch (and its gradient)
+    # finite.
+    is_small = jnp.abs(x / y) < 1e-6
+    x_safe = jnp.where(is_small, y, x)
+    return jnp.where(
+        is_small, y * (1.0 - x / y / 2.0), x_safe / (save_exp(x_safe / y) - 1.0)
+    )
